@@ -1,0 +1,291 @@
+//go:build verif
+
+// Contracts for the verification machinery in /verif (comment-only; no declarations).
+// C17: observed addresses are advertised only with enough independent observers.
+
+package observedaddrs
+
+// ---------------------------------------------------------------------------
+// leaf classifiers
+
+//@ pred isTW(a multiaddr.Multiaddr) = len(a) >= 2 && (a[0].Code() == multiaddr.P_IP4 || a[0].Code() == multiaddr.P_IP6) &&
+//@     (a[1].Code() == multiaddr.P_TCP || a[1].Code() == multiaddr.P_UDP)
+
+//@ func thinWaistForm
+//@ prop C17
+//@ ensures result1 == nil <==> isTW(a)
+//@ ensures result1 == nil ==> result0.Addr == a && result0.TW == a[:2] && result0.Rest == a[2:]
+//@ modifies nothing
+
+//@ func isRelayedAddress
+//@ prop C17
+//@ loop 0 invariant 0 <= idx0 && idx0 <= len(a) && (forall j int :: 0 <= j && j < idx0 ==> a[j].Code() != multiaddr.P_CIRCUIT)
+//@ ensures result ==> (exists j int :: 0 <= j && j < len(a) && a[j].Code() == multiaddr.P_CIRCUIT)
+//@ ensures !result ==> (forall j int :: 0 <= j && j < len(a) ==> a[j].Code() != multiaddr.P_CIRCUIT)
+//@ modifies nothing
+
+//@ func hasConsistentTransport
+//@ prop C17
+//@ loop 0 invariant 0 <= idx0 && idx0 <= len(aTW) && (forall j int :: 0 <= j && j < idx0 ==> bTW[j].Code() == aTW[j].Code())
+//@ ensures result ==> len(aTW) == len(bTW) && (forall j int :: 0 <= j && j < len(aTW) ==> bTW[j].Code() == aTW[j].Code())
+//@ ensures !result ==> len(aTW) != len(bTW) || (exists j int :: 0 <= j && j < len(aTW) && bTW[j].Code() != aTW[j].Code())
+//@ ensures result && len(aTW) == 2 ==> bTW[0].Code() == aTW[0].Code() && bTW[1].Code() == aTW[1].Code()
+//@ modifies nothing
+
+// observer group of a remote address: the IPv4 address, or the /56 prefix of the IPv6 address
+//@ pred obsKey(a multiaddr.Multiaddr) = ite(nth(manet.ToIP(a), 0).To4() != nil, nth(manet.ToIP(a), 0).To4().String(),
+//@     nth(manet.ToIP(a), 0).Mask(net.CIDRMask(56, 128)).String())
+
+//@ func getObserver
+//@ prop C17
+//@ ensures result1 == nil <==> nth(manet.ToIP(a), 1) == nil
+//@ ensures result1 == nil ==> result0 == obsKey(a)
+//@ modifies nothing
+
+// ---------------------------------------------------------------------------
+// bookkeeping: externalAddrs[local TW][observed TW].ObservedBy[observer group] = number of credited connections
+
+//@ pred hasSet(o *Manager, l string, ob string) = has(o.externalAddrs, l) && has(o.externalAddrs[l], ob)
+//@ pred cnt(o *Manager, l string, ob string, obs string) = ite(hasSet(o, l, ob), o.externalAddrs[l][ob].ObservedBy[obs], 0)
+//@ pred nobs(o *Manager, l string, ob string) = ite(hasSet(o, l, ob), len(o.externalAddrs[l][ob].ObservedBy), 0)
+
+// well-formedness, in five parts (proved as separate postconditions): no nil maps; every stored count is positive;
+// inner maps of distinct local addresses are distinct; maps of different kinds are different objects and every
+// observer set owns its ObservedBy map; distinct keys own distinct observer sets
+//@ pred wfBase(o *Manager) = o.externalAddrs != nil && o.connObservedTWAddrs != nil && o.externalAddrs != o.connObservedTWAddrs &&
+//@     (forall l string :: has(o.externalAddrs, l) ==> o.externalAddrs[l] != nil && o.externalAddrs[l] != o.externalAddrs && o.externalAddrs[l] != o.connObservedTWAddrs)
+//@ pred wfSets(o *Manager) = forall l string, ob string, obs string :: hasSet(o, l, ob) ==> o.externalAddrs[l][ob] != nil && o.externalAddrs[l][ob].ObservedBy != nil &&
+//@         (has(o.externalAddrs[l][ob].ObservedBy, obs) ==> o.externalAddrs[l][ob].ObservedBy[obs] >= 1)
+//@ pred wfInner(o *Manager) = forall l1 string, l2 string :: has(o.externalAddrs, l1) && has(o.externalAddrs, l2) && l1 != l2 ==> o.externalAddrs[l1] != o.externalAddrs[l2]
+//@ pred wfOwn(o *Manager) = (forall s *observerSet :: s.ObservedBy != nil ==> s.ObservedBy != o.externalAddrs && s.ObservedBy != o.connObservedTWAddrs) &&
+//@     (forall s *observerSet, l string :: s.ObservedBy != nil && has(o.externalAddrs, l) ==> s.ObservedBy != o.externalAddrs[l]) &&
+//@     (forall s1 *observerSet, s2 *observerSet :: s1 != s2 && s1.ObservedBy != nil ==> s1.ObservedBy != s2.ObservedBy)
+//@ pred wfInj(o *Manager) = forall l1 string, ob1 string :: hasSet(o, l1, ob1) ==>
+//@         (forall l2 string, ob2 string :: hasSet(o, l2, ob2) && (l1 != l2 || ob1 != ob2) ==> o.externalAddrs[l1][ob1] != o.externalAddrs[l2][ob2])
+//@ pred wf(o *Manager) = wfBase(o) && wfSets(o) && wfInner(o) && wfOwn(o) && wfInj(o)
+
+// A-MAPLEN (model assumption, true of every Go map): the engine does not link len(m) to the key set of m. The two
+// instances the cleanup code relies on are assumed at entry: a map of length 1 that contains k contains no other key.
+//@ pred mapLenOK(o *Manager) =
+//@     (forall l string, ob string, x string, y string :: hasSet(o, l, ob) && len(o.externalAddrs[l][ob].ObservedBy) == 1 &&
+//@         has(o.externalAddrs[l][ob].ObservedBy, x) && has(o.externalAddrs[l][ob].ObservedBy, y) ==> x == y) &&
+//@     (forall l string, x string, y string :: has(o.externalAddrs, l) && len(o.externalAddrs[l]) == 1 &&
+//@         has(o.externalAddrs[l], x) && has(o.externalAddrs[l], y) ==> x == y)
+
+//@ func (o *Manager) removeExternalAddrsUnlocked
+//@ prop C17
+//@ requires wf(o) && mapLenOK(o)
+//@ ensures wfBase(o)
+//@ ensures wfSets(o)
+//@ ensures wfInner(o)
+//@ ensures wfOwn(o)
+//@ ensures wfInj(o)
+//@ ensures cnt(o, localTWStr, observedTWStr, observer) == max(0, old(cnt(o, localTWStr, observedTWStr, observer)) - 1)
+//@ ensures forall l string, ob string, obs string :: (l != localTWStr || ob != observedTWStr || obs != observer) ==> cnt(o, l, ob, obs) == old(cnt(o, l, ob, obs))
+//@ ensures nobs(o, localTWStr, observedTWStr) == old(nobs(o, localTWStr, observedTWStr)) - ite(old(cnt(o, localTWStr, observedTWStr, observer)) == 1, 1, 0)
+//@ ensures forall l string, ob string :: (l != localTWStr || ob != observedTWStr) ==> nobs(o, l, ob) == old(nobs(o, l, ob))
+//@ modifies contents(o.externalAddrs), contents(o.externalAddrs[localTWStr]), contents(o.externalAddrs[localTWStr][observedTWStr].ObservedBy)
+
+//@ func (o *Manager) addExternalAddrsUnlocked
+//@ prop C17
+//@ requires wf(o)
+//@ ensures wfBase(o)
+//@ ensures wfSets(o)
+//@ ensures wfInner(o)
+//@ ensures wfOwn(o)
+//@ ensures wfInj(o)
+//@ ensures cnt(o, localTWStr, observedTWStr, observer) == old(cnt(o, localTWStr, observedTWStr, observer)) + 1
+//@ ensures forall l string, ob string, obs string :: (l != localTWStr || ob != observedTWStr || obs != observer) ==> cnt(o, l, ob, obs) == old(cnt(o, l, ob, obs))
+//@ ensures nobs(o, localTWStr, observedTWStr) == old(nobs(o, localTWStr, observedTWStr)) + ite(old(cnt(o, localTWStr, observedTWStr, observer)) == 0, 1, 0)
+//@ ensures forall l string, ob string :: (l != localTWStr || ob != observedTWStr) ==> nobs(o, l, ob) == old(nobs(o, l, ob))
+//@ ensures hasSet(o, localTWStr, observedTWStr) && (!old(hasSet(o, localTWStr, observedTWStr)) ==> o.externalAddrs[localTWStr][observedTWStr].ObservedTWAddr == observedTWAddr)
+//@ modifies contents(o.externalAddrs), contents(o.externalAddrs[localTWStr]), contents(o.externalAddrs[localTWStr][observedTWStr].ObservedBy)
+
+// ---------------------------------------------------------------------------
+// the observation filter
+
+//@ func (o *Manager) shouldRecordObservation
+//@ prop C17
+//@ loop 0 invariant 0 <= idx0 && idx0 <= len(listenAddrs) && listenAddrs == ret(listenAddrs, 0, 0) &&
+//@         (forall j int :: 0 <= j && j < idx0 ==> len(listenAddrs[j]) == 0 || (len(listenAddrs[j]) == 2 && isTW(listenAddrs[j])))
+//@ ensures shouldRecord ==> conn != nil && observed != nil
+//@ ensures shouldRecord ==> !manet.IsIPLoopback(observed)
+//@ ensures shouldRecord ==> !manet.IsNAT64IPv4ConvertedIPv6Addr(observed)
+//@ ensures shouldRecord ==> !(exists j int :: 0 <= j && j < len(observed) && observed[j].Code() == multiaddr.P_CIRCUIT)
+//@ ensures shouldRecord ==> isTW(conn.LocalMultiaddr()) && localTW.Addr == conn.LocalMultiaddr() && localTW.TW == conn.LocalMultiaddr()[:2]
+//@ ensures shouldRecord ==> isTW(observed) && observedTW.Addr == observed && observedTW.TW == observed[:2]
+//@ ensures shouldRecord ==> observed[0].Code() == conn.LocalMultiaddr()[0].Code() && observed[1].Code() == conn.LocalMultiaddr()[1].Code()
+//@ ensures shouldRecord ==> called(Contains, 0) && ret(Contains, 0, 0) && arg(Contains, 0, 0) == ret(listenAddrs, 0, 0) && arg(Contains, 0, 1) == localTW.TW
+//@ ensures shouldRecord ==> (exists j int :: 0 <= j && j < len(ret(listenAddrs, 0, 0)) &&
+//@         len(ret(listenAddrs, 0, 0)[j]) == 2 && isTW(ret(listenAddrs, 0, 0)[j]) && localTW.TW.Equal(ret(listenAddrs, 0, 0)[j]))
+//@ modifies elems(_)
+
+// ---------------------------------------------------------------------------
+// per-connection credit: connObservedTWAddrs[conn] is the single observation credited to conn
+
+//@ pred sameConns(o *Manager) = forall c connMultiaddrs :: has(o.connObservedTWAddrs, c) == old(has(o.connObservedTWAddrs, c)) &&
+//@     o.connObservedTWAddrs[c] == old(o.connObservedTWAddrs[c])
+//@ pred sameOtherConns(o *Manager, conn connMultiaddrs) = forall c connMultiaddrs :: c != conn ==>
+//@     has(o.connObservedTWAddrs, c) == old(has(o.connObservedTWAddrs, c)) && o.connObservedTWAddrs[c] == old(o.connObservedTWAddrs[c])
+//@ pred sameCounts(o *Manager) = (forall l string, ob string, obs string :: cnt(o, l, ob, obs) == old(cnt(o, l, ob, obs))) &&
+//@     (forall l string, ob string :: nobs(o, l, ob) == old(nobs(o, l, ob)))
+
+//@ func (o *Manager) recordObservationUnlocked
+//@ prop C17
+//@ requires wf(o) && mapLenOK(o) && conn != nil && localTW.TW == conn.LocalMultiaddr()[:2]
+//@ ensures wfBase(o)
+//@ ensures wfSets(o)
+//@ ensures wfInner(o)
+//@ ensures wfOwn(o)
+//@ ensures wfInj(o)
+//@ ensures sameOtherConns(o, conn)
+//@ ensures conn.IsClosed() ==> sameCounts(o) && sameConns(o)
+//@ ensures nth(manet.ToIP(conn.RemoteMultiaddr()), 1) != nil ==> sameCounts(o) && sameConns(o)
+//@ ensures !called(addExternalAddrsUnlocked, 0) ==> sameCounts(o) && sameConns(o)
+//@ ensures called(addExternalAddrsUnlocked, 0) ==> !conn.IsClosed() && has(o.connObservedTWAddrs, conn) && o.connObservedTWAddrs[conn] == observedTW.TW
+//@ ensures called(addExternalAddrsUnlocked, 0) ==> observer == obsKey(conn.RemoteMultiaddr()) && localTWStr == string(conn.LocalMultiaddr()[:2].Bytes()) &&
+//@         observedTWStr == string(observedTW.TW.Bytes()) && arg(addExternalAddrsUnlocked, 0, 2) == observer &&
+//@         arg(addExternalAddrsUnlocked, 0, 3) == localTWStr && arg(addExternalAddrsUnlocked, 0, 4) == observedTWStr
+//@ ensures called(addExternalAddrsUnlocked, 0) ==> (called(removeExternalAddrsUnlocked, 0) <==> old(has(o.connObservedTWAddrs, conn)))
+//@ ensures called(removeExternalAddrsUnlocked, 0) ==> called(addExternalAddrsUnlocked, 0) && arg(Bytes, 2, 0) == old(o.connObservedTWAddrs[conn]) &&
+//@         arg(removeExternalAddrsUnlocked, 0, 3) == string(ret(Bytes, 2, 0)) &&
+//@         arg(removeExternalAddrsUnlocked, 0, 1) == observer && arg(removeExternalAddrsUnlocked, 0, 2) == localTWStr
+// (locals and path events must not occur inside old(): they are bound through the quantifier)
+// first observation on this connection: exactly one credit is added
+//@ ensures called(addExternalAddrsUnlocked, 0) && !called(removeExternalAddrsUnlocked, 0) ==>
+//@         (forall l string, ob string, obs string :: cnt(o, l, ob, obs) == old(cnt(o, l, ob, obs)) + ite(l == localTWStr && ob == observedTWStr && obs == observer, 1, 0))
+//@ ensures called(addExternalAddrsUnlocked, 0) && !called(removeExternalAddrsUnlocked, 0) ==>
+//@         (forall l string, ob string, obs string :: l == localTWStr && ob == observedTWStr && obs == observer ==>
+//@             nobs(o, l, ob) == old(nobs(o, l, ob)) + ite(old(cnt(o, l, ob, obs)) == 0, 1, 0))
+//@ ensures called(addExternalAddrsUnlocked, 0) && !called(removeExternalAddrsUnlocked, 0) ==>
+//@         (forall l string, ob string :: (l != localTWStr || ob != observedTWStr) ==> nobs(o, l, ob) == old(nobs(o, l, ob)))
+// changed observation: the previous credit (key p) is withdrawn, the new one added
+//@ ensures called(removeExternalAddrsUnlocked, 0) && arg(removeExternalAddrsUnlocked, 0, 3) != observedTWStr ==>
+//@         (forall l string, ob string, obs string :: l == localTWStr && ob == observedTWStr && obs == observer ==> cnt(o, l, ob, obs) == old(cnt(o, l, ob, obs)) + 1)
+//@ ensures called(removeExternalAddrsUnlocked, 0) && arg(removeExternalAddrsUnlocked, 0, 3) != observedTWStr ==>
+//@         (forall l string, ob string, obs string :: l == localTWStr && ob == arg(removeExternalAddrsUnlocked, 0, 3) && obs == observer ==>
+//@             cnt(o, l, ob, obs) == max(0, old(cnt(o, l, ob, obs)) - 1))
+//@ ensures called(removeExternalAddrsUnlocked, 0) ==>
+//@         (forall l string, ob string, obs string :: (l != localTWStr || (ob != observedTWStr && ob != arg(removeExternalAddrsUnlocked, 0, 3)) || obs != observer) ==>
+//@             cnt(o, l, ob, obs) == old(cnt(o, l, ob, obs)))
+//@ ensures called(removeExternalAddrsUnlocked, 0) && arg(removeExternalAddrsUnlocked, 0, 3) != observedTWStr ==>
+//@         (forall l string, ob string, obs string :: l == localTWStr && ob == observedTWStr && obs == observer ==>
+//@             nobs(o, l, ob) == old(nobs(o, l, ob)) + ite(old(cnt(o, l, ob, obs)) == 0, 1, 0))
+//@ ensures called(removeExternalAddrsUnlocked, 0) && arg(removeExternalAddrsUnlocked, 0, 3) != observedTWStr ==>
+//@         (forall l string, ob string, obs string :: l == localTWStr && ob == arg(removeExternalAddrsUnlocked, 0, 3) && obs == observer ==>
+//@             nobs(o, l, ob) == old(nobs(o, l, ob)) - ite(old(cnt(o, l, ob, obs)) == 1, 1, 0))
+//@ ensures called(removeExternalAddrsUnlocked, 0) ==>
+//@         (forall l string, ob string :: (l != localTWStr || (ob != observedTWStr && ob != arg(removeExternalAddrsUnlocked, 0, 3))) ==> nobs(o, l, ob) == old(nobs(o, l, ob)))
+//@ noframe
+
+// connection closed: its record is deleted and its credit withdrawn
+//@ func (o *Manager) removeConn
+//@ prop C17
+//@ requires wf(o) && mapLenOK(o)
+//@ ensures wfBase(o)
+//@ ensures wfSets(o)
+//@ ensures wfInner(o)
+//@ ensures wfOwn(o)
+//@ ensures wfInj(o)
+//@ ensures sameOtherConns(o, conn)
+//@ ensures conn != nil ==> !has(o.connObservedTWAddrs, conn)
+//@ ensures !called(removeExternalAddrsUnlocked, 0) ==> sameCounts(o)
+//@ ensures conn != nil && old(has(o.connObservedTWAddrs, conn)) && isTW(conn.LocalMultiaddr()) && nth(manet.ToIP(conn.RemoteMultiaddr()), 1) == nil ==>
+//@         called(removeExternalAddrsUnlocked, 0)
+//@ ensures called(removeExternalAddrsUnlocked, 0) ==> old(has(o.connObservedTWAddrs, conn)) && arg(removeExternalAddrsUnlocked, 0, 1) == obsKey(conn.RemoteMultiaddr()) &&
+//@         arg(removeExternalAddrsUnlocked, 0, 2) == string(conn.LocalMultiaddr()[:2].Bytes()) &&
+//@         arg(Bytes, 1, 0) == old(o.connObservedTWAddrs[conn]) && arg(removeExternalAddrsUnlocked, 0, 3) == string(ret(Bytes, 1, 0))
+//@ ensures called(removeExternalAddrsUnlocked, 0) ==>
+//@         (forall l string, ob string, obs string :: l == arg(removeExternalAddrsUnlocked, 0, 2) && ob == arg(removeExternalAddrsUnlocked, 0, 3) && obs == arg(removeExternalAddrsUnlocked, 0, 1) ==>
+//@             cnt(o, l, ob, obs) == max(0, old(cnt(o, l, ob, obs)) - 1) && nobs(o, l, ob) == old(nobs(o, l, ob)) - ite(old(cnt(o, l, ob, obs)) == 1, 1, 0))
+//@ ensures called(removeExternalAddrsUnlocked, 0) ==>
+//@         (forall l string, ob string, obs string :: (l != arg(removeExternalAddrsUnlocked, 0, 2) || ob != arg(removeExternalAddrsUnlocked, 0, 3) || obs != arg(removeExternalAddrsUnlocked, 0, 1)) ==>
+//@             cnt(o, l, ob, obs) == old(cnt(o, l, ob, obs))) &&
+//@         (forall l string, ob string :: (l != arg(removeExternalAddrsUnlocked, 0, 2) || ob != arg(removeExternalAddrsUnlocked, 0, 3)) ==> nobs(o, l, ob) == old(nobs(o, l, ob)))
+//@ noframe
+
+// an observation is recorded only if it passed the filter, for the connection and the thin waists the filter returned
+//@ func (o *Manager) maybeRecordObservation
+//@ prop C17
+//@ requires wf(o) && mapLenOK(o)
+//@ callsite recordObservationUnlocked#0 requires ret(shouldRecordObservation, 0, 0) && arg(shouldRecordObservation, 0, 1) == conn &&
+//@         arg(shouldRecordObservation, 0, 2) == observed && arg1 == conn && arg2.TW == ret(shouldRecordObservation, 0, 1).TW &&
+//@         arg3.TW == ret(shouldRecordObservation, 0, 2).TW && arg3.TW == observed[:2]
+//@ ensures wfBase(o)
+//@ ensures wfSets(o)
+//@ ensures wfInner(o)
+//@ ensures wfOwn(o)
+//@ ensures wfInj(o)
+//@ ensures !called(recordObservationUnlocked, 0) ==> sameCounts(o) && sameConns(o)
+//@ noframe
+
+// ---------------------------------------------------------------------------
+// reporting: threshold, order, at most three per local address
+
+//@ func (o *Manager) getTopExternalAddrs
+//@ prop C17
+//@ requires wfSets(o)
+//@ loop 0 invariant len(observerSets) >= 0 && (forall j int :: 0 <= j && j < len(observerSets) ==> observerSets[j] != nil && observerSets[j].ObservedBy != nil &&
+//@         len(observerSets[j].ObservedBy) >= minObservers &&
+//@         (exists ob string :: hasSet(o, localTWStr, ob) && o.externalAddrs[localTWStr][ob] == observerSets[j]))
+//@ ensures len(result) <= maxExternalThinWaistAddrsPerLocalAddr
+//@ ensures forall j int :: 0 <= j && j < len(result) ==> result[j] != nil && result[j].ObservedBy != nil && len(result[j].ObservedBy) >= minObservers
+//@ ensures forall j int :: 0 <= j && j < len(result) ==> (exists ob string :: hasSet(o, localTWStr, ob) && o.externalAddrs[localTWStr][ob] == result[j])
+//@ modifies nothing
+// the comparator handed to slices.SortFunc: more observers first, ties by address
+//@ closure 0
+//@ requires a != nil && b != nil
+//@ ensures len(a.ObservedBy) > len(b.ObservedBy) ==> result < 0
+//@ ensures len(a.ObservedBy) < len(b.ObservedBy) ==> result > 0
+//@ ensures len(a.ObservedBy) == len(b.ObservedBy) ==> called(Compare, 0) && result == ret(Compare, 0, 0) && arg(Compare, 0, 0) == a.ObservedTWAddr && arg(Compare, 0, 1) == b.ObservedTWAddr
+
+// A-MAPTYPE (typing fact, assumed at entry and shown to be preserved): an ObservedBy map (map[string]int) is never the
+// same object as a cachedMultiaddrs map (map[string]ma.Multiaddr)
+//@ pred cacheSep() = forall s1 *observerSet, s2 *observerSet :: s1.ObservedBy != nil ==> s1.ObservedBy != s2.cachedMultiaddrs
+
+// building the output address touches nothing but the set's address cache
+//@ func (s *observerSet) cacheMultiaddr
+//@ prop C17
+//@ requires cacheSep()
+//@ ensures cacheSep()
+//@ ensures addr == nil ==> result == s.ObservedTWAddr
+//@ ensures forall x *observerSet :: x.ObservedBy == old(x.ObservedBy) && x.ObservedTWAddr == old(x.ObservedTWAddr)
+//@ modifies s.cachedMultiaddrs, contents(s.cachedMultiaddrs)
+
+// AddrsFor: only sets that pass the activation threshold for this local thin waist are turned into addresses, at most three
+//@ func (o *Manager) AddrsFor
+//@ prop C17
+//@ requires wfSets(o) && cacheSep()
+//@ callsite getTopExternalAddrs#0 requires isTW(addr) && arg1 == string(addr[:2].Bytes()) && arg2 == ActivationThresh
+//@ callsite cacheMultiaddr#0 requires 0 <= idx0 && idx0 < len(ret(getTopExternalAddrs, 0, 0)) && arg0 == ret(getTopExternalAddrs, 0, 0)[idx0] &&
+//@         arg0 != nil && len(arg0.ObservedBy) >= ActivationThresh && arg1 == addr[2:]
+//@ loop 0 invariant 0 <= idx0 && idx0 <= len(observerSets) && len(res) == idx0 && cacheSep() && observerSets == ret(getTopExternalAddrs, 0, 0) &&
+//@         (forall j int :: 0 <= j && j < len(observerSets) ==> observerSets[j] != nil && observerSets[j].ObservedBy != nil &&
+//@             len(observerSets[j].ObservedBy) >= ActivationThresh)
+//@ ensures len(addrs) <= maxExternalThinWaistAddrsPerLocalAddr
+//@ ensures addr == nil || !isTW(addr) ==> len(addrs) == 0
+//@ ensures len(addrs) > 0 ==> called(getTopExternalAddrs, 0) && len(addrs) == len(ret(getTopExternalAddrs, 0, 0))
+//@ noframe
+
+// Addrs(minObservers) (guard level): the threshold handed to getTopExternalAddrs is the requested one, or the activation
+// threshold when none is requested; the table handed to appendInferredAddrs is the one filled from those calls
+//@ func (o *Manager) Addrs
+//@ prop C17
+//@ requires wfSets(o) && cacheSep()
+//@ callsite getTopExternalAddrs#0 requires (old(minObservers) <= 0 ==> arg2 == ActivationThresh) && (old(minObservers) > 0 ==> arg2 == old(minObservers)) && arg1 == localTWStr
+//@ loop 0 invariant minObservers == ite(old(minObservers) <= 0, ActivationThresh, old(minObservers)) && m != nil
+//@ callsite appendInferredAddrs#0 requires arg1 == m && arg1 != nil
+//@ noframe
+
+// appendInferredAddrs (guard level): without a table the activation threshold is used; every address produced comes from a
+// set listed in the table under the thin waist of a listen address, combined with the rest of that listen address
+//@ func (o *Manager) appendInferredAddrs
+//@ prop C17
+//@ requires wfSets(o) && cacheSep()
+//@ callsite getTopExternalAddrs#0 requires old(twToObserverSets) == nil && arg1 == localTWStr && arg2 == ActivationThresh
+//@ loop 0 invariant twToObserverSets != nil
+//@ loop 1 invariant cacheSep() && twToObserverSets != nil && (old(twToObserverSets) != nil ==> twToObserverSets == old(twToObserverSets))
+//@ loop 2 invariant cacheSep() && 0 <= idx2 && idx2 <= len(twToObserverSets[string(t.TW.Bytes())])
+//@ callsite cacheMultiaddr#0 requires isTW(a) && t.TW == a[:2] && arg1 == a[2:] && 0 <= idx2 && idx2 < len(twToObserverSets[string(a[:2].Bytes())]) &&
+//@         arg0 == twToObserverSets[string(a[:2].Bytes())][idx2]
+//@ noframe
